@@ -87,7 +87,13 @@ Flaws == {"duplicate-function", "duplicate-function-in-submodule", "same-name-in
 FlawConfs == { Conf({<<"f">>, <<"a", "f">>}, <<>>, {}, <<"f">>, fl) : fl \in Flaws }
 FlawExpected(c) == IF c.flaw = "same-name-in-two-modules-is-fine" THEN {Run(<<"f">>)} ELSE {Cerr}
 
-Confs == CASE Shard = "resolve" -> ResolveConfs [] Shard = "flaws" -> FlawConfs
+\* only the caller module's own imports count: imports of the enclosing module (field pimps, ignored by Expected) do not
+\* reach into a nested module that imports nothing itself
+PImportPool == { <<"a", "f">>, <<"b", "g">>, <<"b", "f">>, <<"a", "b">>, <<"c", "f">>, <<"c", "g">>,
+                 <<"super", "f">>, <<"super", "c", "f">>, <<"super", "c">> }
+InheritConfs == { [fns |-> fns, ns |-> ns, imports |-> {}, name |-> name, flaw |-> "none", pimps |-> {i}] :
+                    fns \in FnFamilies, ns \in {<<"a">>, <<"a", "b">>, <<"c">>}, name \in Names, i \in PImportPool }
+Confs == CASE Shard = "resolve" -> ResolveConfs [] Shard = "flaws" -> FlawConfs [] Shard = "inherit" -> InheritConfs
 
 VARIABLE conf
 Init == conf \in Confs
